@@ -151,9 +151,9 @@ impl Loop {
         crate::verif::on_block(200 * self.delay as u64);
         std::thread::sleep(Duration::from_millis(200 * self.delay as u64));
         if self.from < self.to {
-            self.i += self.step;
+            self.i = self.i.saturating_add(self.step);
         } else {
-            self.i -= self.step;
+            self.i = self.i.saturating_sub(self.step);
         }
 
         match res {
